@@ -196,12 +196,7 @@ func rawScenario() *Scenario {
 		t := s.Tape()
 		st := &rawState{s: s, tape: t}
 		s.EnableHB()
-		switch t.Weighted(3, 2, 1) {
-		case 1:
-			s.SwitchNum, s.SwitchDen = 1, 2
-		case 2:
-			s.SwitchNum, s.SwitchDen = 1, 20
-		}
+		s.Probe("policy-" + pickPolicy(s))
 		st.start()
 		return func(res simrt.RunResult) []simrt.Violation {
 			v := &vio{}
